@@ -109,6 +109,8 @@ func VerifC16Reentry() {
 	c := ReferenceClockClient{numOpsInProgress: 1}
 	v.Assert(v.Panics(func() { c.MeasureClockOffsets(ctx, clks, ms) }), "C16.reentry.second-collection-refused")
 	v.Assert(ms[0].Offset == c16sentinel && ms[1].Offset == c16sentinel, "C16.reentry.refused-before-any-effect")
+	// the refused attempt must not release the claim of the collection that is in progress
+	v.Assert(c.numOpsInProgress == 1, "C16.reentry.refusal-keeps-running-collection-registered")
 	var d ReferenceClockClient
 	v.Assert(v.Panics(func() { d.MeasureClockOffsets(ctx, clks, ms[:1]) }), "C16.lengths.mismatch-refused")
 	v.Reach("C16.reentry")
